@@ -261,7 +261,15 @@ def main(argv=None):
         return run_replay(a.replay)
     if not a.property:
         ap.error("property id required")
-    return run_check(a.property.upper(), a.tier, env.seed_default(), a.jobs)
+    try:
+        return run_check(a.property.upper(), a.tier, env.seed_default(), a.jobs)
+    except Exception:
+        # a failure of the driver itself (e.g. the tree under test does not import) is never a verdict
+        import traceback
+
+        traceback.print_exc()
+        print(f"INCONCLUSIVE property={a.property.upper()} the check driver failed (see traceback)")
+        return 2
 
 
 if __name__ == "__main__":
